@@ -28,6 +28,11 @@ def opStep (parse : UpperParse) (r : Streams) : Op → Streams × Option (Out ×
 /-- the stream table after a session that started with a fresh reassembler -/
 def reach (parse : UpperParse) (ops : List Op) : Streams := ops.foldl (fun r o => (opStep parse r o).1) []
 
+/-- what a session reports, call by call -/
+def sessionOut (parse : UpperParse) : Streams → List Op → List (Option (Out × Pkt) × Nat)
+  | _, [] => []
+  | r, o :: ops => ((opStep parse r o).2, (opStep parse r o).1.length) :: sessionOut parse (opStep parse r o).1 ops
+
 theorem reach_snoc (parse : UpperParse) (ops : List Op) (o : Op) :
     reach parse (ops ++ [o]) = (opStep parse (reach parse ops) o).1 := by
   simp [reach, List.foldl_append]
